@@ -38,6 +38,11 @@ def boot():
     os.environ.setdefault("OPENBLAS_NUM_THREADS", "1")
     os.environ.setdefault("MKL_NUM_THREADS", "1")
     warnings.simplefilter("ignore")
+    import logging
+
+    # zarr's I/O loop logs "Task exception was never retrieved" for operations that were
+    # still queued when an injected fault aborted the call; that is expected noise
+    logging.getLogger("asyncio").setLevel(logging.CRITICAL)
     src = os.path.join(REPO, "src")
     if src in sys.path:
         sys.path.remove(src)
